@@ -209,6 +209,18 @@ func rangeOver(fd *ast.FuncDecl, marker string) *ast.RangeStmt {
 	return out
 }
 
+// rangeOverC matches on the rename-insensitive form of the ranged expression
+// (or on its type): locals are printed by definition, parameters by position.
+func rangeOverC(p *packages.Package, fd *ast.FuncDecl, marker string) *ast.RangeStmt {
+	fc := newFuncCanon(p.TypesInfo, fd)
+	return findRange(p.TypesInfo, fc, fd, func(rs *ast.RangeStmt, cx string, t types.Type) bool {
+		if marker == ".GetPackages<(config.RootConfig).GetPackages>(" && strings.Contains(cx, "ParsePackages") {
+			return false
+		}
+		return strings.Contains(cx, marker) || t != nil && strings.Contains(shortType(t), marker)
+	})
+}
+
 func hasStep(p *dtPath, sub string) int {
 	n := 0
 	for _, s := range p.Steps {
@@ -237,7 +249,7 @@ func ruleR072(c *Ctx, r *Repo) {
 		return
 	}
 	c.Func(funcKey(ip, pp))
-	rs := rangeOver(pp, "declaredInterfaces")
+	rs := rangeOverC(ip, pp, ".declaredInterfaces")
 	if rs == nil {
 		c.Fail("R07.2", "ParsePackages|candidate-loop", r.Pos(pp.Pos()), "no loop over the visitor's declared interfaces")
 		return
@@ -322,7 +334,7 @@ func ruleR073(c *Ctx, r *Repo) {
 		return
 	}
 	c.Func(funcKey(cmdp, run))
-	outer := rangeOver(run, "interfaces")
+	outer := rangeOverC(cmdp, run, ".ParsePackages<(internal.Parser).ParsePackages>(")
 	var inner *ast.RangeStmt
 	if outer != nil {
 		ast.Inspect(outer.Body, func(n ast.Node) bool {
@@ -490,7 +502,7 @@ func ruleR075(c *Ctx, r *Repo, rule string) {
 		return
 	}
 	c.Func(funcKey(cp, fd))
-	rs := rangeOver(fd, "subpkgs")
+	rs := rangeOverC(cp, fd, ".subPackages<(config.RootConfig).subPackages>(")
 	if rs == nil {
 		c.Fail(rule, "Initialize|subpkg-loop", r.Pos(fd.Pos()), "no loop over the discovered sub-packages")
 		return
